@@ -154,7 +154,7 @@ func main() {
 		pprof.StartCPUProfile(f)
 		defer pprof.StopCPUProfile()
 	}
-	balenum.TuneGC(1 << 30)
+	balenum.TuneGC(256 << 20)
 	r := ev.New("C25", "exploration")
 	r.Rule("every input of a small grammar is run once per count-map insertion order: members x per-member subscription (non-empty topic subsets, plus one member subscribed to nothing / to a nonexistent topic) x partition counts x static/dynamic IDs x member racks x partition-leader racks x prior ownership (partition -> nobody | one member | two conflicting members, member generation current | stale); a case is non-trivial when at least two members compete for a topic; distinct = distinct (balancer, members, partition counts, subscriptions, resulting plan)")
 	r.Assume(
